@@ -358,15 +358,17 @@ func runC18(r *core.Run) {
 						emit(c18File{f.Name, fmt.Sprint("medium/", i), gz})
 					}
 				}
-				for _, gz := range []bool{false, true} {
-					emit(c18File{f.Name, "error", gz})
+				for _, what := range []string{"error", "error-middle", "longline", "large"} {
+					for _, gz := range []bool{false, true} {
+						emit(c18File{f.Name, what, gz})
+					}
 				}
 			}
 		},
 		func(c c18File) core.Outcome {
 			var data []byte
-			if c.Corpus == "error" {
-				data = fileContent(c.Format, "error")
+			if !strings.Contains(c.Corpus, "/") {
+				data = fileContent(c.Format, c.Corpus)
 			} else {
 				data = corpusBy(c.Format, c.Corpus)
 			}
